@@ -8,7 +8,7 @@ from ..kernelcases import DTYPES, MIN_INT, canon_array, encode_values, mask_toke
 
 PID = "C08"
 MODULES = ["GroupbyVerif.Props.C08", "GroupbyVerif.LoopBridge.Cumulative"]
-RULE = ("seeded random interleavings of <= 3 groups (null codes/keys included) x value dtype classes f64 f32 i64 (incl. |v| > 2^53) i32 u8 bool "
+RULE = ("seeded random interleavings of <= 3 groups (null codes/keys included) x value dtype classes f64 f32 i64 (incl. |v| > 2^53) i32 u8 u64 (incl. v > 2^53 and v >= 2^63) bool "
         "M8[ns] m8[s] with nulls x boolean masks x {cumsum, cummin, cummax, cumcount} x both skip_na, at the kernel level "
         "(numba.cum*) and through GroupBy.cum* (ndarray / indexed Series; keys with nulls); exhaustive <= 5 rows for f64 in the thorough tier; "
         "non-trivial = a group with >= 2 selected rows; distinct = distinct (protocol line, level, dtype)")
@@ -62,7 +62,7 @@ def gen_cases(tier, rng):
         L = rng.randint(0, 14)
         ng = rng.randint(1, 3)
         codes = [rng.choice([-1] + list(range(ng))) if rng.random() < 0.9 else -1 for _ in range(L)]
-        dt = rng.choice(["f64", "f64", "f32", "i64", "i32", "u8", "bool", "M8ns", "m8s"])
+        dt = rng.choice(["f64", "f64", "f32", "i64", "i32", "u8", "u64", "bool", "M8ns", "m8s"])
         null_ok = DTYPES[dt][2] is not None and dt != "i64"
         if dt == "bool":
             alpha = [0, 1]
@@ -72,6 +72,9 @@ def gen_cases(tier, rng):
             alpha = [1, 2, 7, 1_600_000_000_123_456_789]
         elif dt == "u8":
             alpha = [1, 2, 7]
+        elif dt == "u64":
+            # beyond 2^53 (a detour through float64 rounds) and beyond 2^63 (a detour through int64 wraps)
+            alpha = [1, 2, 2 ** 53 + 1, 2 ** 60 + 3, 2 ** 63 + 5]
         else:
             alpha = [-3, 1, 2, 7]
         vals = [None if (null_ok and rng.random() < 0.25) else rng.choice(alpha) for _ in range(L)]
@@ -81,6 +84,8 @@ def gen_cases(tier, rng):
         level = rng.choice(["kernel", "public"])
         if op == "sum" and dt in ("M8ns",):
             op = "max"
+        if op == "sum" and dt == "u64":
+            vals = [v if v < 2 ** 61 else 2 ** 53 + 1 for v in vals]  # 14 rows stay inside 64 bits
         if op == "sum" and dt == "i64":
             vals = [v if abs(v) < 10 else 1 for v in vals]  # keep exact sums inside 64 bits trivially
         yield dict(level=level, op=op, dt=dt, skipna=skipna, codes=codes, vals=vals, mask=mask, ng=ng,
